@@ -23,3 +23,15 @@ Theorem C05_no_shorter_stream : forall dict s t,
   8 * N.of_nat (length s) < bitpos (inflate dict (s ++ t)).
 Proof. exact inflate_need. Qed.
 Print Assumptions C05_no_shorter_stream.
+
+(* ---- on the faithful engine model (RModel/Engine.v with its bufio model: Peek/Discard arithmetic as
+   reader.go writes it), by erun_sound: when a Read reports io.EOF the number of bytes discarded from
+   the bufio.Reader -- what the caller's source has lost -- is exactly the length of the stream,
+   (bitpos + 7) / 8, for every schedule, buffer size and Read sizes. *)
+From Verif Require Import Engine EngineRefineSpecTop EngineRefineFinal EngineCorollaries.
+Theorem C05_engine_exact_consumption : forall data cs bufsize t reads,
+  bytes_ok data -> cut_of cs data ->
+  In REOF (map snd (fst (erun_ext bufsize cs t reads))) ->
+  snd (erun_ext bufsize cs t reads) = (bitpos (Inflate.inflate [] data) + 7) / 8.
+Proof. exact engine_exact_consumption. Qed.
+Print Assumptions C05_engine_exact_consumption.
